@@ -426,6 +426,42 @@ def atomic_case(ctx: Ctx, seed: int, with_ts: bool = False) -> None:
             return
 
 
+def collapse_case(ctx: Ctx, seed: int) -> None:
+    """tolerance choices under which reconvergence MERGES minima: basin-hopping converged loosely (1e-1) with a tight
+    matching distance records one basin more than once; reconverging tightly then maps several stored minima onto
+    one.  Checked after every call, with the number of minima before / after in the case record."""
+    import random
+    rng = random.Random(seed)
+    kind = rng.choice(["camelback", "camelback", "cosine"])
+    ns, ktn, coords, pot, tr, cfg = build(ctx, kind, rng, seed)
+    ns.similarity.distance_criterion = 0.002
+    done = []
+    steps = [("get_minima_loose", lambda: ns.get_minima(coords, 30, 1e-1, 1.0, test_valid=False)),
+             ("get_minima_loose", lambda: ns.get_minima(coords, 20, 1e-1, 1.0, test_valid=False)),
+             ("reconverge_minima", lambda: ns.reconverge_minima(pot, 1e-8)),
+             ("ts_closest", lambda: ns.get_transition_states('ClosestEnumeration', 1, remove_bounds_minima=False)),
+             ("reconverge_landscape", lambda: ns.reconverge_landscape(pot, 1e-8))]
+    coords.position = coords.generate_random_point()
+    for name, fn in steps:
+        n0 = ktn.n_minima
+        if name == "reconverge_minima":
+            ns.similarity.distance_criterion = 0.02        # the criterion the reconverged minima are compared with
+        try:
+            fn()
+        except Exception as e:
+            ctx.fail(f"pipeline-call-raises:{name}", f"{name} raised {type(e).__name__}: {e} on {cfg['label']} (collapse seed {seed})",
+                     {"collapse": True, "seed": seed})
+            return
+        done.append(name)
+        ctx.stats.case({"surface": cfg["label"], "collapse_seed": seed, "calls": list(done), "minima": [n0, ktn.n_minima]}, True)
+        ctx.stats.branch("collapse:" + name + (":merged" if name.startswith("reconverge") and ktn.n_minima < n0 else ""))
+        r = landscape_predicate(ktn, pot, cfg, tr)
+        if r:
+            ctx.fail(r[0], f"{r[1]} — after {done} on {cfg['label']} (collapse seed {seed}; {n0} minima before the last "
+                     f"call, {ktn.n_minima} after)", {"collapse": True, "seed": seed})
+            return
+
+
 def correspond(ctx: Ctx) -> None:
     rng = ctx.rng
     kinds = ["camelback", "cosine", "cosine", "schwefel"]
@@ -443,6 +479,8 @@ def predicates(ctx: Ctx) -> None:
         pipeline_case(ctx, kind, seed, ncalls, False)
     for seed in (11, 179, 301) + ((207, 225) if (ctx.thorough or deep) else ()):
         rich_case(ctx, seed)
+    for seed in (1, 2, 3) + (tuple(rng.randrange(1 << 30) for _ in range(6)) if (ctx.thorough or deep) else ()):
+        collapse_case(ctx, seed)
     for i in range(ctx.scale(3, 12) * (3 if deep else 1)):
         atomic_case(ctx, 5 + i if i < 2 else rng.randrange(1 << 30), with_ts=(ctx.thorough and i % 4 == 3))
     n = ctx.scale(6, 40) * (3 if deep else 1)
@@ -454,6 +492,11 @@ def predicates(ctx: Ctx) -> None:
 def replay(ctx: Ctx, data: dict) -> bool:
     if data.get("atomic"):
         atomic_case(ctx, data["seed"], bool(data.get("with_ts")))
+        for f in ctx.failures:
+            print(f"  {f.key}: {f.what}")
+        return not ctx.failures
+    if data.get("collapse"):
+        collapse_case(ctx, data["seed"])
         for f in ctx.failures:
             print(f"  {f.key}: {f.what}")
         return not ctx.failures
